@@ -1,6 +1,6 @@
 (* Props/C13.v — C13: StreamLexer is chunking-independent; Err; ShiftLen; slice stability.
    Statements only; each is closed by [exact] of a lemma proved in Stream/Proofs.v. *)
-From Verif Require Import Common.Base Stream.Model Stream.Spec Stream.Proofs.
+From Verif Require Import Common.Base Stream.Model Stream.Spec Stream.Proofs Stream.Stable.
 
 (* However the reader splits the data (any schedule of Read results: any chunk sizes, zero-length reads,
    EOF or a failure delivered with or after the last bytes) and whatever initial buffer size >= 0 is chosen,
@@ -29,6 +29,20 @@ Theorem err_spec :
     (stream_err s' <> 0 -> stream_err s' = final_err sch).
 Proof. exact err_spec_proof. Qed.
 Print Assumptions err_spec.
+
+(* A slice returned by Shift stays unchanged until at least as many bytes have been released with Free as had
+   been shifted up to its end: for every read schedule, every initial size >= 0, every contract-respecting history
+   and hence every Free discipline (never, immediately, delayed, in any amounts the contract allows).  [intact s c h]
+   is: total bytes freed < absolute end offset of the slice -> its bytes in the final heap are the bytes it had when
+   it was handed out.  Proved over the pool as an index-linked queue with the absolute-offset accounting
+   T + ppos + pending = bytes freed (Stream/Pool.v, Stream/Stable.v). *)
+Theorem shift_slice_stable :
+  forall (sch : list event) (size : Z) (ops : list sop) s c outs h,
+    0 <= size ->
+    srun2 (new_stream sch size) (sc_init (delivered sch)) [] ops = Some (s, c, outs) ->
+    In h outs -> hshift h = true -> intact s c h.
+Proof. exact shift_slice_stable_proof. Qed.
+Print Assumptions shift_slice_stable.
 
 (* REFUTED on the current tree (known finding, KNOWN_FINDINGS.txt c13-stable:lexeme): a slice returned by
    Lexeme() changes although fewer bytes were released than had been shifted up to its end. *)
